@@ -356,12 +356,25 @@ example :
 
 /-- delivering headers (before, between or after the blocks) leads to the same block-side state —
     stored blocks, validation marks, orphan pool and final best-chain tip — as delivering the
-    blocks alone in the same order.
-    Partial: the block side of the model covers valid blocks anywhere and invalid blocks only where
-    they extend the tip; re-organisations onto branches containing invalid blocks are C02's model. -/
-theorem headers_then_blocks_same_tip_partial (e : HF.Env) (ops : List HF.Op) :
+    blocks alone in the same order, for every delivery history (valid and invalid blocks anywhere,
+    orphans, re-organisations including branches with invalid blocks).
+    The block side of `Headers.lean` never reads the header-only index entries, as in the code
+    (`blockExists`/`HaveBlock` look at the data flag); the driver additionally runs C02's
+    `ChainCore` (one index holding header entries too) on every generated history and flags any
+    disagreement.  Not modelled: the orphan pool bound of 100 and the one-hour orphan expiry. -/
+theorem headers_then_blocks_same_tip (e : HF.Env) (ops : List HF.Op) :
     (HF.run e {} ops).b = (HF.run e {} (ops.filter HF.Op.isBlock)).b :=
   HF.run_blocks_only e ops {}
+
+/-- a failed re-organisation (a block of the branch fails validation, or the branch holds a
+    known-invalid block) never moves the best tip -/
+theorem failed_reorg_keeps_tip (e : HF.Env) (b : HF.BState) (n : Nat)
+    (h : (HF.accept e b n).1.tip ≠ b.tip) :
+    (HF.accept e b n).1.tip = n ∧ (HF.accept e b n).2 = .main := by
+  unfold HF.accept at h ⊢
+  simp only [] at h ⊢
+  repeat' split
+  all_goals first | exact absurd rfl h | exact ⟨rfl, rfl⟩ | simp_all
 
 /-! ### pinning of regenerated facts (T2) -/
 
